@@ -82,8 +82,33 @@ OPTS = {('id.nik', 'get_birth_date'): [{}, {'minyear': 1900}, {'minyear': 1990},
         ('kr.rrn', 'get_birth_date'): [{}, {'allow_future': False}, {'allow_future': True}]}
 
 
+def discovered():
+    """Attribute-deriving functions present in the tree but not in the frozen table (added later, or rarely used):
+    only totality is asserted for them (kind 'any')."""
+    import inspect
+    known = set((m, f) for m, f, _ in GETTERS)
+    out = []
+    for name, m in core.number_modules().items():
+        for fn, f in inspect.getmembers(m, inspect.isfunction):
+            if fn.startswith('_') or (name, fn) in known:
+                continue
+            if not (fn.startswith(('get_', 'is_', 'guess_')) or fn in ('info', 'split', 'mask') or fn.endswith('_type')) or fn == 'is_valid':
+                continue
+            if getattr(f, '__module__', '').startswith('stdnum.util'):
+                continue
+            try:
+                req = [p.name for p in inspect.signature(f).parameters.values() if p.default is p.empty]
+            except (TypeError, ValueError):
+                continue
+            if req == ['number']:
+                out.append((name, fn, 'any'))
+    return out
+
+
 def check_kind(kind, r, v):
     """Return None if r is of the documented kind, else a reason."""
+    if kind == 'any':
+        return None
     opt = kind.endswith('?')
     k = kind.rstrip('?')
     if r is None:
@@ -230,8 +255,10 @@ def shard(a):
 
 def run(ctx):
     core.number_modules()
-    args = [{'shard': '%s.%s' % g[:2], 'g': g, 'n': ctx.q(250, 6000), 'seed': ctx.seed, 'known': ctx.known_buckets} for g in GETTERS]
+    extra = discovered()
+    args = [{'shard': '%s.%s' % g[:2], 'g': g, 'n': ctx.q(250, 6000), 'seed': ctx.seed, 'known': ctx.known_buckets} for g in GETTERS + extra]
     res = core.run_shards(shard, args)
     res.notes['getters'] = len(GETTERS)
+    res.notes['getters_discovered_outside_the_table'] = ['%s.%s' % g[:2] for g in extra]
     res.notes['getters_with_few_calls'] = [k for k, v in res.notes.get('calls_per_getter', {}).items() if v < 50]
     return core.finish(ctx, res, LEVEL, RULE, ASSUME, SUBS)
